@@ -6,7 +6,8 @@ CONSTANTS
   NDs = {1, 2}
   Vals = {"a", "b"}
   MaxLen = 3
-  MaxWrites = 4
+  MaxWrites = 3
   ContinueAfterError = TRUE
+  Rich = TRUE
 INVARIANTS R1_RoundTrip R1s_StreamExact R2_FileNoReplacement R3_OneMessagePerAcceptedBatch I_Order I_Sync I_Refusals
 CHECK_DEADLOCK FALSE
